@@ -11,10 +11,12 @@
 
    Every retention point of the anchored code is one constructor of [rpoint];
    [copies] is the transcription of what the Go code does at that point.
-   The step functions below model only the data flow packet bytes -> retained
-   fields -> later outputs (table dumps, notifications, replies); protocol
-   decisions that do not depend on retained byte strings (address allocation,
-   lease state machine) enter as oracle fields of the operation. *)
+   The step functions model only the data flow packet bytes -> retained
+   fields -> later outputs (table dumps, notifications, replies).  Where a
+   field sits inside a variable-format message (DHCP/NDP options, DNS names)
+   the operation carries locators (offset, length) computed by the harness'
+   independent frame writer; protocol decisions that do not depend on retained
+   byte strings (address allocation, ACK/NAK) enter as oracle fields. *)
 From PV Require Import Base.Prelude Base.Text.
 Open Scope N_scope.
 Open Scope list_scope.
@@ -36,6 +38,27 @@ Fixpoint bleb (a b : bytes) : bool :=
   | _ :: _, [] => false
   | x :: a', y :: b' => if x <? y then true else if y <? x then false else bleb a' b'
   end.
+
+Definition is_nil {A} (l : list A) : bool := match l with [] => true | _ => false end.
+
+Fixpoint remove_first {A} (p : A -> bool) (l : list A) : list A :=
+  match l with
+  | [] => []
+  | x :: r => if p x then r else x :: remove_first p r
+  end.
+
+Fixpoint insert_by {A} (le : A -> A -> bool) (x : A) (l : list A) : list A :=
+  match l with
+  | [] => [x]
+  | y :: r => if le x y then x :: l else y :: insert_by le x r
+  end.
+Definition sort_by {A} (le : A -> A -> bool) (l : list A) : list A := fold_right (insert_by le) [] l.
+
+(* does [l] end with [suf]; the part before it *)
+Definition ends_with (suf l : bytes) : bool :=
+  (List.length suf <=? List.length l)%nat && beqb (skipn (List.length l - List.length suf) l) suf.
+Definition trim_suffix (suf l : bytes) : bytes :=
+  if ends_with suf l then firstn (List.length l - List.length suf) l else l.
 
 (* ---------------------------------------------------------------- *)
 (* Receive buffers.  Contents = an explicit prefix followed by an infinite
@@ -82,17 +105,52 @@ Definition deref (s : store) (v : rv) : bytes :=
   end.
 
 (* where the bytes being retained come from: a slice of the frame being
-   processed, or a value that is itself already retained (e.g. lease.Addr.MAC
-   handed to Session.DHCPv4Update) *)
+   processed, a value that is itself already retained (e.g. lease.Addr.MAC
+   handed to Session.DHCPv4Update), or a value the Go code computed into
+   fresh memory (masked prefix, joined DNS labels, constant): the latter can
+   never alias the packet *)
 Inductive src : Type :=
 | FrameSl (off n : nat)
-| Held (v : rv).
+| Held (v : rv)
+| Fresh (b : bytes).
 
 (* Retention points: every place of the anchored code that stores a byte
    string derived from a received packet into state that outlives the call. *)
 Inductive rpoint : Set :=
-| RP_mactable_mac        (* mactable.go:110  MACEntry.MAC = CopyMAC(mac); Host.Addr.MAC shares it (hosttable.go:139) *)
-| RP_host_ip             (* hosttable.go:139 Host.Addr.IP / HostTable key: netip.Addr value (layer_ip4/ip6 Src(), layer_frame.go:255 AddrFrom4) *)
+(* session: hosttable.go, mactable.go, session.go *)
+| RP_mactable_mac     (* mactable.go:110  MACEntry.MAC = CopyMAC(mac); Host.Addr.MAC shares it (hosttable.go:139);
+                         reached from Parse, DHCPv4Update, SetDHCPv4IPOffer, Capture *)
+| RP_host_ip          (* hosttable.go:139 Host.Addr.IP and the HostTable key: netip.Addr values
+                         (IP4.Src/IP6.Src, layer_frame.go:255 AddrFrom4) *)
+| RP_name_entry       (* NameEntry strings stored by Host.Update*Name / SetDHCPv4IPOffer: Go strings built by
+                         string(...) in the handlers *)
+(* handlers/dhcp4_spoofer *)
+| RP_lease_key        (* lease.go:113 h.table[string(lease.ClientID)] *)
+| RP_lease_cid        (* lease.go:105 CopyBytes(clientID) *)
+| RP_lease_mac        (* lease.go:108 CopyMAC(mac) *)
+| RP_lease_name       (* lease.go:111, request.go:236,244: string(options[HostName]) (discover.go:43, request.go:73) *)
+| RP_lease_xid        (* discover.go:95 CopyBytes(p.XId()) *)
+| RP_decline_cid      (* client.go:47 / request.go:183,203 dupBytes(clientID), used by the decline goroutine *)
+| RP_decline_mac      (* client.go:48 dupMAC(chAddr) *)
+| RP_decline_xid      (* client.go:51 dupBytes(xid) *)
+(* handlers/icmp_spoofer + layer_icmp6_options.go *)
+| RP_router_mac       (* icmp6radv.go:52 CopyMAC(mac) *)
+| RP_router_key       (* icmp6radv.go:53 LANRouters[ip], Router.Addr.IP: netip value *)
+| RP_ndp_lla          (* layer_icmp6_options.go:107 CopyMAC(b[2:]) (source / target link-layer address) *)
+| RP_ndp_prefix       (* layer_icmp6_options.go:225 net.IP(addr.AsSlice()).Mask(mask) *)
+| RP_ndp_route        (* layer_icmp6_options.go:345-348 copy into make(net.IP,16) + Mask (was CopyBytes(b[8:8+pl/8])) *)
+| RP_ndp_rdnss        (* layer_icmp6_options.go:438 CopyIP(value[start:end]) *)
+| RP_ndp_dnssl        (* layer_icmp6_options.go:506-560 RawOption copy + string(raw.Value[i:i+length]) *)
+(* handlers/dns_naming + layer_dns.go *)
+| RP_dns_name         (* dns.go:131,134 string(question.Name): DNSTable key and DNSEntry.Name *)
+| RP_dns_rr_name      (* layer_dns.go:199,209,221 string(name) *)
+| RP_dns_cname        (* layer_dns.go:222 string(cname) *)
+| RP_dns_ip           (* layer_dns.go:197,207 netip.AddrFromSlice: value *)
+| RP_mdns_name        (* mdns.go:340 string(q.Name.Data[:n]); mdns.go:416,430 hdr.Name.String() *)
+| RP_mdns_mac         (* mdns.go:417,431 CopyMAC(frame.SrcAddr.MAC) *)
+| RP_mdns_model       (* mdns.go:473 parseTXT(r.TXT): dnsmessage copies TXT strings *)
+| RP_mdns_cache_key   (* mdns.go:283-287 key := make([]byte, 8); copy(key, mac); string(key) *)
+| RP_nbns_name        (* nbns.go:190 string(nn) of a copy made by dnsmessage.UnknownResource *)
 .
 
 (* Transcription of the Go code: does the retention point copy? *)
@@ -100,42 +158,124 @@ Definition copies (k : rpoint) : bool :=
   match k with
   | RP_mactable_mac => true
   | RP_host_ip => true
+  | RP_name_entry => true
+  | RP_lease_key => true
+  | RP_lease_cid => true
+  | RP_lease_mac => true
+  | RP_lease_name => true
+  | RP_lease_xid => true
+  | RP_decline_cid => true
+  | RP_decline_mac => true
+  | RP_decline_xid => true
+  | RP_router_mac => true
+  | RP_router_key => true
+  | RP_ndp_lla => true
+  | RP_ndp_prefix => true
+  | RP_ndp_route => true
+  | RP_ndp_rdnss => true
+  | RP_ndp_dnssl => true
+  | RP_dns_name => true
+  | RP_dns_rr_name => true
+  | RP_dns_cname => true
+  | RP_dns_ip => true
+  | RP_mdns_name => true
+  | RP_mdns_mac => true
+  | RP_mdns_model => true
+  | RP_mdns_cache_key => true
+  | RP_nbns_name => true
   end.
 
-Definition src_val (s : store) (frame : bytes) (x : src) : bytes :=
+(* the call context: the store at the time of the call, the buffer the frame
+   sits in, and the frame bytes (what the Go code reads through its views) *)
+Record ctx := { cx_s : store; cx_buf : nat; cx_frame : bytes }.
+Definition rd (cx : ctx) (v : rv) : bytes := deref (cx_s cx) v.
+Definition nocx (s : store) : ctx := {| cx_s := s; cx_buf := 0; cx_frame := [] |}.
+
+Definition src_val (cx : ctx) (x : src) : bytes :=
   match x with
-  | FrameSl off n => sub frame off n
-  | Held v => deref s v
+  | FrameSl off n => sub (cx_frame cx) off n
+  | Held v => rd cx v
+  | Fresh b => b
   end.
 
 (* what ends up in the retained field *)
-Definition retain (k : rpoint) (s : store) (buf : nat) (frame : bytes) (x : src) : rv :=
-  if copies k then Owned (src_val s frame x)
+Definition retain (k : rpoint) (cx : ctx) (x : src) : rv :=
+  if copies k then Owned (src_val cx x)
   else match x with
-       | FrameSl off n => Ref buf off n
+       | FrameSl off n => Ref (cx_buf cx) off n
        | Held v => v
+       | Fresh b => Owned b
        end.
 
 (* ---------------------------------------------------------------- *)
 (* Session state (hosttable.go, mactable.go) *)
 
+(* NameEntry (Type and Expire are not byte strings learned from packets) *)
+Record nameent := { n_name : rv; n_model : rv; n_manuf : rv; n_os : rv }.
+Definition nm_empty : nameent :=
+  {| n_name := Owned []; n_model := Owned []; n_manuf := Owned []; n_os := Owned [] |}.
+(* index of the five name slots: DHCP4Name, MDNSName, SSDPName, LLMNRName, NBNSName *)
+Definition NM_DHCP := 0%nat. Definition NM_MDNS := 1%nat. Definition NM_SSDP := 2%nat.
+Definition NM_LLMNR := 3%nat. Definition NM_NBNS := 4%nat.
+Definition names0 : list nameent := [nm_empty; nm_empty; nm_empty; nm_empty; nm_empty].
+Definition get_name (i : nat) (l : list nameent) : nameent := nth i l nm_empty.
+
 Record macentry := {
   me_id : nat;             (* identity of the *MACEntry pointer *)
   me_mac : rv;             (* MACEntry.MAC *)
-  me_hosts : list bytes    (* MACEntry.HostList (host keys, in slice order) *)
+  me_hosts : list bytes;   (* MACEntry.HostList (host keys, in slice order) *)
+  me_online : bool;
+  me_router : bool;
+  me_ip4 : bytes;          (* MACEntry.IP4 (netip value) *)
+  me_offer : bytes;        (* MACEntry.IP4Offer (netip value; [] = invalid) *)
+  me_names : list nameent
 }.
 
 Record host := {
   h_ip : rv;               (* Host.Addr.IP *)
   h_key : bytes;           (* key in HostTable.Table (netip.Addr value) *)
   h_me : nat;              (* Host.MACEntry *)
-  h_mac : rv               (* Host.Addr.MAC: the same slice as MACEntry.MAC *)
+  h_mac : rv;              (* Host.Addr.MAC: the same slice as MACEntry.MAC *)
+  h_online : bool;
+  h_dirty : bool;
+  h_names : list nameent
 }.
+
+(* handlers/dhcp4_spoofer lease table *)
+Record lease := {
+  l_key : rv;              (* map key string(clientID) *)
+  l_kval : bytes;          (* its value at insertion (Go map keys are immutable strings) *)
+  l_cid : rv; l_mac : rv; l_xid : rv; l_name : rv;
+  l_ip : bytes             (* Lease.Addr.IP (allocated by the server: oracle) *)
+}.
+
+(* handlers/icmp_spoofer router table *)
+Record router := {
+  r_key : bytes; r_ip : rv; r_mac : rv;
+  r_slla : rv;             (* Options.SourceLLA.MAC *)
+  r_prefixes : list rv;    (* Options.Prefixes[i].Prefix (also Router.Prefixes, Options.FirstPrefix) *)
+  r_rdnss : list rv;       (* Options.RDNSS.Servers *)
+  r_dnssl : list rv;       (* Options.DNSSearchList.DomainNames *)
+  r_route : rv             (* Options.RouteInformation.Prefix *)
+}.
+
+(* handlers/dns_naming DNS table *)
+Record dnsrec := { dr_key : bytes; dr_name : rv; dr_val : rv }.   (* key; RR Name; IP or CName *)
+Record dnsent := {
+  d_key : bytes; d_name : rv;
+  d_a : list dnsrec; d_aaaa : list dnsrec; d_cname : list dnsrec
+}.
+(* mDNS response cache: key, and the retained (name, mac, model) of each entry *)
+Record mcache := { mc_key : rv; mc_kval : bytes; mc_ents : list (rv * rv * rv) }.
 
 Record state := {
   st_hosts : list host;        (* HostTable.Table (a Go map: order irrelevant, dumps sort) *)
   st_macs : list macentry;     (* MACTable.Table (a Go slice: order kept) *)
-  st_next : nat                (* allocation counter for me_id *)
+  st_next : nat;               (* allocation counter for me_id *)
+  st_leases : list lease;
+  st_routers : list router;
+  st_dns : list dnsent;
+  st_mcache : list mcache
 }.
 
 Record cfg := {
@@ -149,84 +289,250 @@ Definition std_cfg : cfg :=
      c_router_mac := [0;102;102;102;102;102]; c_router_ip := [192;168;0;11];
      c_lan := [192;168;0] |}.
 
-Definition set_hosts (st : state) (hs : list host) : state :=
-  {| st_hosts := hs; st_macs := st_macs st; st_next := st_next st |}.
-Definition set_macs (st : state) (ms : list macentry) : state :=
-  {| st_hosts := st_hosts st; st_macs := ms; st_next := st_next st |}.
+Definition set_hosts (st : state) (x : list host) : state :=
+  {| st_hosts := x; st_macs := st_macs st; st_next := st_next st; st_leases := st_leases st;
+     st_routers := st_routers st; st_dns := st_dns st; st_mcache := st_mcache st |}.
+Definition set_macs (st : state) (x : list macentry) : state :=
+  {| st_hosts := st_hosts st; st_macs := x; st_next := st_next st; st_leases := st_leases st;
+     st_routers := st_routers st; st_dns := st_dns st; st_mcache := st_mcache st |}.
+Definition set_next (st : state) (x : nat) : state :=
+  {| st_hosts := st_hosts st; st_macs := st_macs st; st_next := x; st_leases := st_leases st;
+     st_routers := st_routers st; st_dns := st_dns st; st_mcache := st_mcache st |}.
+Definition set_leases (st : state) (x : list lease) : state :=
+  {| st_hosts := st_hosts st; st_macs := st_macs st; st_next := st_next st; st_leases := x;
+     st_routers := st_routers st; st_dns := st_dns st; st_mcache := st_mcache st |}.
+Definition set_routers (st : state) (x : list router) : state :=
+  {| st_hosts := st_hosts st; st_macs := st_macs st; st_next := st_next st; st_leases := st_leases st;
+     st_routers := x; st_dns := st_dns st; st_mcache := st_mcache st |}.
+Definition set_dns (st : state) (x : list dnsent) : state :=
+  {| st_hosts := st_hosts st; st_macs := st_macs st; st_next := st_next st; st_leases := st_leases st;
+     st_routers := st_routers st; st_dns := x; st_mcache := st_mcache st |}.
+Definition set_mcache (st : state) (x : list mcache) : state :=
+  {| st_hosts := st_hosts st; st_macs := st_macs st; st_next := st_next st; st_leases := st_leases st;
+     st_routers := st_routers st; st_dns := st_dns st; st_mcache := x |}.
+
+Definition me_with_hosts (e : macentry) (x : list bytes) : macentry :=
+  {| me_id := me_id e; me_mac := me_mac e; me_hosts := x; me_online := me_online e; me_router := me_router e;
+     me_ip4 := me_ip4 e; me_offer := me_offer e; me_names := me_names e |}.
+Definition me_with_online (e : macentry) (x : bool) : macentry :=
+  {| me_id := me_id e; me_mac := me_mac e; me_hosts := me_hosts e; me_online := x; me_router := me_router e;
+     me_ip4 := me_ip4 e; me_offer := me_offer e; me_names := me_names e |}.
+Definition me_with_router (e : macentry) (x : bool) : macentry :=
+  {| me_id := me_id e; me_mac := me_mac e; me_hosts := me_hosts e; me_online := me_online e; me_router := x;
+     me_ip4 := me_ip4 e; me_offer := me_offer e; me_names := me_names e |}.
+Definition me_with_ip4 (e : macentry) (x : bytes) : macentry :=
+  {| me_id := me_id e; me_mac := me_mac e; me_hosts := me_hosts e; me_online := me_online e; me_router := me_router e;
+     me_ip4 := x; me_offer := me_offer e; me_names := me_names e |}.
+Definition me_with_offer (e : macentry) (x : bytes) : macentry :=
+  {| me_id := me_id e; me_mac := me_mac e; me_hosts := me_hosts e; me_online := me_online e; me_router := me_router e;
+     me_ip4 := me_ip4 e; me_offer := x; me_names := me_names e |}.
+Definition me_with_names (e : macentry) (x : list nameent) : macentry :=
+  {| me_id := me_id e; me_mac := me_mac e; me_hosts := me_hosts e; me_online := me_online e; me_router := me_router e;
+     me_ip4 := me_ip4 e; me_offer := me_offer e; me_names := x |}.
+
+Definition h_with_online (h : host) (x : bool) : host :=
+  {| h_ip := h_ip h; h_key := h_key h; h_me := h_me h; h_mac := h_mac h; h_online := x; h_dirty := h_dirty h; h_names := h_names h |}.
+Definition h_with_dirty (h : host) (x : bool) : host :=
+  {| h_ip := h_ip h; h_key := h_key h; h_me := h_me h; h_mac := h_mac h; h_online := h_online h; h_dirty := x; h_names := h_names h |}.
+Definition h_with_names (h : host) (x : list nameent) : host :=
+  {| h_ip := h_ip h; h_key := h_key h; h_me := h_me h; h_mac := h_mac h; h_online := h_online h; h_dirty := h_dirty h; h_names := x |}.
 
 Definition find_host (key : bytes) (hs : list host) : option host :=
   find (fun h => beqb (h_key h) key) hs.
 (* MACTable.findMAC: bytes.Equal(v.MAC, mac) over the slice *)
-Definition find_mac (s : store) (mac : bytes) (ms : list macentry) : option macentry :=
-  find (fun e => beqb (deref s (me_mac e)) mac) ms.
+Definition find_mac (cx : ctx) (mac : bytes) (ms : list macentry) : option macentry :=
+  find (fun e => beqb (rd cx (me_mac e)) mac) ms.
 Definition me_by_id (id : nat) (ms : list macentry) : option macentry :=
   find (fun e => Nat.eqb (me_id e) id) ms.
 
+Definition upd_host (key : bytes) (f : host -> host) (st : state) : state :=
+  set_hosts st (map (fun h => if beqb (h_key h) key then f h else h) (st_hosts st)).
+Definition upd_me (id : nat) (f : macentry -> macentry) (st : state) : state :=
+  set_macs st (map (fun e => if Nat.eqb (me_id e) id then f e else e) (st_macs st)).
+
 (* MACTable.findOrCreate *)
-Definition mac_find_or_create (s : store) (buf : nat) (frame : bytes) (x : src) (st : state)
-  : state * macentry :=
-  match find_mac s (src_val s frame x) (st_macs st) with
+Definition mac_find_or_create (cx : ctx) (x : src) (st : state) : state * macentry :=
+  match find_mac cx (src_val cx x) (st_macs st) with
   | Some e => (st, e)
   | None =>
-      let e := {| me_id := st_next st; me_mac := retain RP_mactable_mac s buf frame x; me_hosts := [] |} in
-      ({| st_hosts := st_hosts st; st_macs := st_macs st ++ [e]; st_next := S (st_next st) |}, e)
-  end.
-
-Fixpoint remove_first {A} (p : A -> bool) (l : list A) : list A :=
-  match l with
-  | [] => []
-  | x :: r => if p x then r else x :: remove_first p r
+      let e := {| me_id := st_next st; me_mac := retain RP_mactable_mac cx x; me_hosts := [];
+                  me_online := false; me_router := false; me_ip4 := [0;0;0;0]; me_offer := []; me_names := names0 |} in
+      (set_next (set_macs st (st_macs st ++ [e])) (S (st_next st)), e)
   end.
 
 (* Session.deleteHost *)
-Definition delete_host (s : store) (key : bytes) (st : state) : state :=
+Definition delete_host (cx : ctx) (key : bytes) (st : state) : state :=
   match find_host key (st_hosts st) with
   | None => st
   | Some h =>
       (* host.MACEntry.unlink(host) *)
       let macs1 := map (fun e => if Nat.eqb (me_id e) (h_me h)
-                                 then {| me_id := me_id e; me_mac := me_mac e;
-                                         me_hosts := remove_first (fun k => beqb k key) (me_hosts e) |}
+                                 then me_with_hosts e (remove_first (fun k => beqb k key) (me_hosts e))
                                  else e) (st_macs st) in
       let hosts1 := remove_first (fun h' => beqb (h_key h') key) (st_hosts st) in
       let macs2 :=
         match me_by_id (h_me h) macs1 with
         | Some e =>
-            match me_hosts e with
-            | [] => (* MACTable.delete(host.MACEntry.MAC): first entry whose bytes are equal *)
-                remove_first (fun e' => beqb (deref s (me_mac e')) (deref s (me_mac e))) macs1
-            | _ => macs1
-            end
+            if is_nil (me_hosts e)
+            then (* MACTable.delete(host.MACEntry.MAC): first entry whose bytes are equal *)
+                 remove_first (fun e' => beqb (rd cx (me_mac e')) (rd cx (me_mac e))) macs1
+            else macs1
         | None => macs1
         end in
-      {| st_hosts := hosts1; st_macs := macs2; st_next := st_next st |}
+      set_macs (set_hosts st hosts1) macs2
   end.
 
+(* the tail of findOrCreateHostWithLock: create the host (dirty, offline) and link it *)
+Definition fresh_host (cx : ctx) (xmac xip : src) (st0 : state) : state :=
+  let key := src_val cx xip in
+  let '(st1, e) := mac_find_or_create cx xmac st0 in
+  let h := {| h_ip := retain RP_host_ip cx xip; h_key := key; h_me := me_id e; h_mac := me_mac e;
+              h_online := false; h_dirty := true; h_names := names0 |} in
+  upd_me (me_id e) (fun e' => me_with_hosts e' (me_hosts e' ++ [key])) (set_hosts st1 (st_hosts st1 ++ [h])).
+
 (* Session.findOrCreateHostWithLock(Addr{MAC, IP}) *)
-Definition find_or_create_host (s : store) (buf : nat) (frame : bytes) (xmac xip : src) (st : state) : state :=
-  let key := src_val s frame xip in
-  let mac := src_val s frame xmac in
-  let fresh (st0 : state) :=
-      let '(st1, e) := mac_find_or_create s buf frame xmac st0 in
-      let h := {| h_ip := retain RP_host_ip s buf frame xip; h_key := key; h_me := me_id e; h_mac := me_mac e |} in
-      {| st_hosts := st_hosts st1 ++ [h];
-         st_macs := map (fun e' => if Nat.eqb (me_id e') (me_id e)
-                                   then {| me_id := me_id e'; me_mac := me_mac e'; me_hosts := me_hosts e' ++ [key] |}
-                                   else e') (st_macs st1);
-         st_next := st_next st1 |} in
+Definition find_or_create_host (cx : ctx) (xmac xip : src) (st : state) : state :=
+  let key := src_val cx xip in
+  let mac := src_val cx xmac in
   match find_host key (st_hosts st) with
   | Some h =>
       match me_by_id (h_me h) (st_macs st) with
-      | Some e => if beqb (deref s (me_mac e)) mac then st
-                  else fresh (delete_host s key st)
-      | None => fresh (delete_host s key st)
+      | Some e => if beqb (rd cx (me_mac e)) mac then st
+                  else fresh_host cx xmac xip (delete_host cx key st)
+      | None => fresh_host cx xmac xip (delete_host cx key st)
       end
-  | None => fresh st
+  | None => fresh_host cx xmac xip st
   end.
+
+(* Session.onlineTransition *)
+Definition online_transition (key : bytes) (st : state) : state :=
+  match find_host key (st_hosts st) with
+  | None => st
+  | Some h =>
+      if h_online h then st else
+      let st1 := upd_me (h_me h) (fun e => me_with_online e true) st in
+      let st2 := upd_host key (fun h' => h_with_dirty (h_with_online h' true) true) st1 in
+      if Nat.eqb (List.length key) 4 then
+        match me_by_id (h_me h) (st_macs st2) with
+        | Some e =>
+            if beqb key (me_ip4 e) then st2 else
+            let st3 := upd_me (h_me h) (fun e' => me_with_ip4 e' key) st2 in
+            (* every other online IPv4 host of this MAC goes offline and dirty *)
+            set_hosts st3 (map (fun v => if Nat.eqb (h_me v) (h_me h) && Nat.eqb (List.length (h_key v)) 4
+                                            && negb (beqb (h_key v) key) && h_online v
+                                         then h_with_dirty (h_with_online v false) true else v) (st_hosts st3))
+        | None => st2
+        end
+      else st2
+  end.
+
+(* NameEntry.Merge (Type/Expire not modelled) *)
+Definition merge1 (cx : ctx) (old new : rv) : rv * bool :=
+  let nv := rd cx new in
+  if negb (is_nil nv) && negb (beqb (rd cx old) nv) then (new, true) else (old, false).
+Definition merge (cx : ctx) (e n : nameent) : nameent * bool :=
+  let '(a, ma) := merge1 cx (n_name e) (n_name n) in
+  let '(b, mb) := merge1 cx (n_model e) (n_model n) in
+  let '(c, mc) := merge1 cx (n_os e) (n_os n) in
+  let '(d, md) := merge1 cx (n_manuf e) (n_manuf n) in
+  ({| n_name := a; n_model := b; n_manuf := d; n_os := c |}, ma || mb || mc || md).
+
+(* Host.Update<X>Name *)
+Definition update_name (cx : ctx) (i : nat) (key : bytes) (n : nameent) (st : state) : state :=
+  match find_host key (st_hosts st) with
+  | None => st
+  | Some h =>
+      let '(hn, notify) := merge cx (get_name i (h_names h)) n in
+      let st1 := upd_host key (fun h' => h_with_names h' (set_nth i hn (h_names h'))) st in
+      if notify then
+        let st2 := upd_host key (fun h' => h_with_dirty h' true) st1 in
+        upd_me (h_me h) (fun e => me_with_names e (set_nth i (fst (merge cx (get_name i (me_names e)) hn)) (me_names e))) st2
+      else st1
+  end.
+
+Definition ip_unspec_or_invalid (ip : bytes) : bool := is_nil ip || forallb (fun b => b =? 0) ip.
+
+(* Session.DHCPv4Update(mac, ip, name) *)
+Definition dhcpv4_update (cx : ctx) (xmac : src) (ip : bytes) (n : nameent) (st : state) : state :=
+  if ip_unspec_or_invalid ip then st else
+  let st1 := find_or_create_host cx xmac (Fresh ip) st in
+  let st2 := update_name cx NM_DHCP ip n st1 in
+  match find_host ip (st_hosts st2) with
+  | Some h => online_transition ip (upd_me (h_me h) (fun e => me_with_offer e ip) st2)
+  | None => st2
+  end.
+
+(* Session.SetDHCPv4IPOffer(mac, ip, name) *)
+Definition set_dhcpv4_offer (cx : ctx) (xmac : src) (ip : bytes) (n : nameent) (st : state) : state :=
+  let '(st1, e) := mac_find_or_create cx xmac st in
+  upd_me (me_id e) (fun e' => me_with_names (me_with_offer e' ip) (set_nth NM_DHCP n (me_names e'))) st1.
+
+(* ---------------------------------------------------------------- *)
+(* Output items of a call *)
+Open Scope string_scope.
+
+Definition hx (b : bytes) : string := hex_of_bytes b.
+Definition show_nm (cx : ctx) (n : nameent) : string :=
+  hx (rd cx (n_name n)) ++ "." ++ hx (rd cx (n_model n)) ++ "." ++ hx (rd cx (n_manuf n)) ++ "." ++ hx (rd cx (n_os n)).
+Definition show_names (cx : ctx) (l : list nameent) : string := join "/" (map (show_nm cx) l).
+
+(* toNotification: names of the MAC entry, except LLMNR which is the host's *)
+Definition notification (cx : ctx) (h : host) (e : macentry) : string :=
+  "N(" ++ hx (rd cx (h_ip h)) ++ "/" ++ hx (rd cx (h_mac h)) ++ "/" ++ show_bool (h_online h) ++ "/" ++ show_bool (me_router e)
+  ++ "/" ++ show_names cx [get_name NM_DHCP (me_names e); get_name NM_MDNS (me_names e); get_name NM_SSDP (me_names e);
+                            get_name NM_LLMNR (h_names h); get_name NM_NBNS (me_names e)] ++ ")".
+
+Definition dummy_me : macentry :=
+  {| me_id := 0; me_mac := Owned []; me_hosts := []; me_online := false; me_router := false; me_ip4 := []; me_offer := []; me_names := names0 |}.
+Definition me_of (h : host) (st : state) : macentry :=
+  match me_by_id (h_me h) (st_macs st) with Some e => e | None => dummy_me end.
+
+(* Session.makeOffline *)
+Definition make_offline (cx : ctx) (key : bytes) (st : state) : state * list string :=
+  match find_host key (st_hosts st) with
+  | None => (st, [])
+  | Some h0 =>
+      let st1 := upd_host key (fun h => h_with_dirty (h_with_online h false) false) st in
+      match find_host key (st_hosts st1) with
+      | None => (st1, [])
+      | Some h =>
+          let n := notification cx h (me_of h st1) in
+          let any_on := existsb (fun v => Nat.eqb (h_me v) (h_me h) && h_online v) (st_hosts st1) in
+          (upd_me (h_me h) (fun e => me_with_online e any_on) st1, [n])
+      end
+  end.
+
+(* Session.Notify / notify for a frame whose Host is [key]; [trans] = the frame carries the online-transition flag *)
+Definition notify_host (cx : ctx) (key : bytes) (trans : bool) (st : state) : state * list string :=
+  match find_host key (st_hosts st) with
+  | None => (st, [])
+  | Some h =>
+      if negb (h_dirty h) then (st, []) else
+      let offl :=
+        if trans && Nat.eqb (List.length key) 4 then
+          match me_by_id (h_me h) (st_macs st) with
+          | Some e => filter (fun k => match find_host k (st_hosts st) with
+                                       | Some v => negb (h_online v) && h_dirty v
+                                       | None => false end) (me_hosts e)
+          | None => []
+          end
+        else [] in
+      let '(st1, outs) := fold_left (fun acc k => let '(s', o) := make_offline cx k (fst acc) in (s', snd acc ++ o)%list)
+                                    offl (st, []) in
+      match find_host key (st_hosts st1) with
+      | None => (st1, outs)
+      | Some h1 =>
+          let n := notification cx h1 (me_of h1 st1) in
+          (upd_host key (fun h' => h_with_dirty h' false) st1, (outs ++ [n])%list)
+      end
+  end.
+
+Close Scope string_scope.
 
 (* ---------------------------------------------------------------- *)
 (* Session.Parse (layer_frame.go): host creation from ARP / IPv4 / IPv6.
-   Only the classification needed for well-formed frames is modelled. *)
+   Only the classification needed for well-formed frames is modelled.
+   Result: state, frame.Host (key), online-transition flag. *)
 
 Definition be16_of (l : bytes) (off : nat) : N := nth off l 0 * 256 + nth (S off) l 0.
 Definition in_lan (c : cfg) (ip : bytes) : bool := beqb (firstn 3 ip) (c_lan c) && Nat.eqb (List.length ip) 4.
@@ -238,89 +544,470 @@ Definition is_loop6 (ip : bytes) : bool := all_zero (firstn 15 ip) && (nth 15 ip
 Definition is_gua6 (ip : bytes) : bool :=
   negb (all_zero ip) && negb (is_loop6 ip) && negb (is_mcast6 ip) && negb (is_lla ip).
 
-Definition parse_hosts (c : cfg) (s : store) (buf : nat) (frame : bytes) (st : state) : state :=
-  if (List.length frame <? 14)%nat then st else
+Definition parse_create (cx : ctx) (xmac xip : src) (st : state) : state * option bytes * bool :=
+  let key := src_val cx xip in
+  let st1 := find_or_create_host cx xmac xip st in
+  match find_host key (st_hosts st1) with
+  | Some h => if h_online h then (st1, Some key, false) else (online_transition key st1, Some key, true)
+  | None => (st1, Some key, false)
+  end.
+
+Definition parse_hosts (c : cfg) (cx : ctx) (st : state) : state * option bytes * bool :=
+  let frame := cx_frame cx in
+  if (List.length frame <? 14)%nat then (st, None, false) else
   let smac := sub frame 6 6 in
-  if negb (N.land (nth 0 smac 0) 1 =? 0) then st else
+  if negb (N.land (nth 0 smac 0) 1 =? 0) then (st, None, false) else
   let et := be16_of frame 12 in
   if et =? 2048 then       (* IPv4 *)
     let sip := sub frame 26 4 in
     if negb (beqb smac (c_host_mac c)) && in_lan c sip
-    then find_or_create_host s buf frame (FrameSl 6 6) (FrameSl 26 4) st else st
+    then parse_create cx (FrameSl 6 6) (FrameSl 26 4) st else (st, None, false)
   else if et =? 34525 then (* IPv6 *)
     let sip := sub frame 22 16 in
     if negb (beqb smac (c_host_mac c)) &&
        (is_lla sip || (is_gua6 sip && negb (beqb smac (c_router_mac c))))
-    then find_or_create_host s buf frame (FrameSl 6 6) (FrameSl 22 16) st else st
+    then parse_create cx (FrameSl 6 6) (FrameSl 22 16) st else (st, None, false)
   else if et =? 2054 then  (* ARP: sender hardware / protocol address *)
     let sip := sub frame 28 4 in
     if negb (beqb smac (c_host_mac c)) && in_lan c sip
-    then find_or_create_host s buf frame (FrameSl 22 6) (FrameSl 28 4) st else st
-  else st.
+    then parse_create cx (FrameSl 22 6) (FrameSl 28 4) st else (st, None, false)
+  else (st, None, false).
 
 (* NewSession: host and router entries, copied from NICInfo (not from a packet) *)
 Definition init_state (c : cfg) : state :=
-  let st0 := {| st_hosts := []; st_macs := []; st_next := 0 |} in
-  let st1 := find_or_create_host [] 0 [] (Held (Owned (c_host_mac c))) (Held (Owned (c_host_ip c))) st0 in
-  find_or_create_host [] 0 [] (Held (Owned (c_router_mac c))) (Held (Owned (c_router_ip c))) st1.
+  let cx := nocx [] in
+  let st0 := {| st_hosts := []; st_macs := []; st_next := 0; st_leases := []; st_routers := []; st_dns := []; st_mcache := [] |} in
+  let st1 := find_or_create_host cx (Fresh (c_host_mac c)) (Fresh (c_host_ip c)) st0 in
+  let st1 := upd_host (c_host_ip c) (fun h => h_with_online h true) st1 in
+  let st1 := match find_host (c_host_ip c) (st_hosts st1) with
+             | Some h => upd_me (h_me h) (fun e => me_with_online (me_with_ip4 e (c_host_ip c)) true) st1
+             | None => st1 end in
+  let st2 := find_or_create_host cx (Fresh (c_router_mac c)) (Fresh (c_router_ip c)) st1 in
+  let st2 := upd_host (c_router_ip c) (fun h => h_with_online h true) st2 in
+  match find_host (c_router_ip c) (st_hosts st2) with
+  | Some h => upd_me (h_me h) (fun e => me_with_router (me_with_online (me_with_ip4 e (c_router_ip c)) true) true) st2
+  | None => st2
+  end.
+
+(* ---------------------------------------------------------------- *)
+(* Locators *)
+
+Definition loc := (nat * nat)%type.            (* offset, length in the frame *)
+Definition lval (cx : ctx) (l : loc) : bytes := sub (cx_frame cx) (fst l) (snd l).
+(* a DNS name: its labels, joined with '.' by decodeName into a scratch buffer *)
+Fixpoint join_labels (cx : ctx) (ls : list loc) : bytes :=
+  match ls with
+  | [] => []
+  | [l] => lval cx l
+  | l :: r => lval cx l ++ [46] ++ join_labels cx r
+  end.
+
+(* ---------------------------------------------------------------- *)
+(* handlers/dhcp4_spoofer *)
+
+Definition find_lease (key : bytes) (ls : list lease) : option lease :=
+  find (fun l => beqb (l_kval l) key) ls.
+Definition l_with (l : lease) (xid name : rv) (ip : bytes) : lease :=
+  {| l_key := l_key l; l_kval := l_kval l; l_cid := l_cid l; l_mac := l_mac l; l_xid := xid; l_name := name; l_ip := ip |}.
+Definition upd_lease (key : bytes) (f : lease -> lease) (st : state) : state :=
+  set_leases st (map (fun l => if beqb (l_kval l) key then f l else l) (st_leases st)).
+
+(* Handler.findOrCreate(clientID, mac, name); no host is captured in the modelled histories: subnet = net1 *)
+Definition lease_find_or_create (cx : ctx) (xcid xmac : src) (xname : src) (st : state) : state :=
+  let key := src_val cx xcid in
+  let name := src_val cx xname in
+  let create (st0 : state) :=
+      let l := {| l_key := retain RP_lease_key cx xcid; l_kval := key; l_cid := retain RP_lease_cid cx xcid;
+                  l_mac := retain RP_lease_mac cx xmac; l_xid := Owned []; l_name := retain RP_lease_name cx xname; l_ip := [] |} in
+      set_leases st0 (remove_first (fun l' => beqb (l_kval l') key) (st_leases st0) ++ [l]) in
+  match find_lease key (st_leases st) with
+  | Some l =>
+      let st1 := if negb (is_nil name) && negb (beqb (rd cx (l_name l)) name)
+                 then upd_lease key (fun l' => l_with l' (l_xid l') (retain RP_lease_name cx xname) (l_ip l')) st else st in
+      if beqb (rd cx (l_mac l)) (src_val cx xmac) then st1 else create st1
+  | None => create st
+  end.
+
+(* the frame a decline/release goroutine sends later: type, client id, chaddr, address, xid *)
+Open Scope string_scope.
+Definition show_decl (cx : ctx) (typ : string) (cid mac xid : rv) (ip : bytes) : string :=
+  "D(" ++ typ ++ "," ++ hx (rd cx cid) ++ "," ++ hx (rd cx mac) ++ "," ++ hx ip ++ "," ++ hx (rd cx xid) ++ ")".
+(* the reply built in place from the request: type, chaddr, xid, yiaddr *)
+Definition show_reply (cx : ctx) (typ : string) (yi : bytes) : string :=
+  "R(" ++ typ ++ "," ++ hx (sub (cx_frame cx) 70 6) ++ "," ++ hx (sub (cx_frame cx) 46 4) ++ "," ++ hx yi ++ ")".
+Close Scope string_scope.
+
+(* DHCP message as seen by the handler: locators of the options + oracle of the server's decision.
+   Fixed offsets in an untagged Ethernet/IPv4/UDP frame: dhcp = 42; xid 46..49; ciaddr 54..57; chaddr 70..75. *)
+Record dhcpmsg := {
+  dm_type : N;                (* option 53 *)
+  dm_cid : option loc;        (* option 61 *)
+  dm_name : option loc;       (* option 12 *)
+  dm_reqip : option loc;      (* option 50 *)
+  dm_cls : N;                 (* request: 0 invalid (no address), 1 selecting, 2 renewing, 3 rebooting/rebinding *)
+  dm_res : N;                 (* oracle: 0 no reply, 2 OFFER, 5 ACK, 6 NAK *)
+  dm_yi : bytes;              (* oracle: yiaddr of the OFFER/ACK *)
+  dm_lip : bytes              (* oracle: Lease.Addr.IP of the client's lease after the call ([] = none) *)
+}.
+
+Definition dm_cid_src (m : dhcpmsg) : src :=
+  match dm_cid m with Some l => FrameSl (fst l) (snd l) | None => FrameSl 70 6 end.
+Definition dm_name_src (m : dhcpmsg) : src :=
+  match dm_name m with Some l => FrameSl (fst l) (snd l) | None => Fresh [] end.
+Definition dm_name_entry (cx : ctx) (m : dhcpmsg) : nameent :=
+  {| n_name := retain RP_name_entry cx (dm_name_src m); n_model := Owned []; n_manuf := Owned []; n_os := Owned [] |}.
+
+Definition dhcp_step0 (cx : ctx) (m : dhcpmsg) (st : state) : state * list string :=
+  let xcid := dm_cid_src m in
+  let key := src_val cx xcid in
+  let xmac := FrameSl 70 6 in
+  let reqip := match dm_reqip m with Some l => lval cx l | None => [] end in
+  if dm_type m =? 1 then
+    (* handleDiscover *)
+    let st1 := lease_find_or_create cx xcid xmac (dm_name_src m) st in
+    if dm_res m =? 2 then
+      let st2 := upd_lease key (fun l => l_with l (retain RP_lease_xid cx (FrameSl 46 4)) (l_name l) (l_ip l)) st1 in
+      match find_lease key (st_leases st2) with
+      | Some l =>
+          (* forceDecline(lease.ClientID, gw, lease.Addr.MAC, reqIP, p.XId()) when a usable address was requested *)
+          let decl := if ip_unspec_or_invalid reqip then [] else
+                      [show_decl cx "4" (retain RP_decline_cid cx (Held (l_cid l))) (retain RP_decline_mac cx (Held (l_mac l)))
+                                 (retain RP_decline_xid cx (FrameSl 46 4)) reqip] in
+          (* SetDHCPv4IPOffer(lease.Addr.MAC, lease.IPOffer, NameEntry{Name: name}) *)
+          let st3 := set_dhcpv4_offer cx (Held (l_mac l)) (dm_yi m) (dm_name_entry cx m) st2 in
+          (st3, show_reply cx "2" (dm_yi m) :: decl)
+      | None => (st2, [])
+      end
+    else (* all addresses allocated: lease deleted, silent *)
+      (set_leases st1 (remove_first (fun l => beqb (l_kval l) key) (st_leases st1)), [])
+  else if dm_type m =? 3 then
+    (* handleRequest *)
+    if dm_cls m =? 0 then (st, []) else
+    let st1 := lease_find_or_create cx xcid xmac (dm_name_src m) st in
+    let nm := dm_name_entry cx m in
+    let st2 := if dm_cls m =? 3 then dhcpv4_update cx xmac reqip nm st1 else st1 in
+    if dm_res m =? 5 then
+      match find_lease key (st_leases st2) with
+      | Some l =>
+          let st3 := upd_lease key (fun l' => l_with l' (l_xid l') (retain RP_lease_name cx (dm_name_src m)) (dm_yi m)) st2 in
+          (dhcpv4_update cx (Held (l_mac l)) (dm_yi m) nm st3, [show_reply cx "5" (dm_yi m)])
+      | None => (st2, [])
+      end
+    else if dm_res m =? 6 then
+      (* NAK; in the rebooting/rebinding paths a decline built from copies of the packet fields is sent by a goroutine *)
+      let decl := if dm_cls m =? 3
+                  then [show_decl cx "4" (retain RP_decline_cid cx xcid) (retain RP_decline_mac cx xmac)
+                                  (retain RP_decline_xid cx (FrameSl 46 4)) reqip]
+                  else [] in
+      (st2, show_reply cx "6" [0;0;0;0] :: decl)
+    else (st2, [])
+  else if dm_type m =? 2 then
+    (* processClientPacket: an OFFER of another server seen on the client port: forceDecline with copies of
+       the packet's client id, chaddr, yiaddr (locator dm_reqip) and xid *)
+    (st, [show_decl cx "4" (retain RP_decline_cid cx xcid) (retain RP_decline_mac cx xmac)
+                    (retain RP_decline_xid cx (FrameSl 46 4)) reqip])
+  else (st, []).
+
+Definition dhcp_step (cx : ctx) (m : dhcpmsg) (st : state) : state * list string :=
+  let '(st1, outs) := dhcp_step0 cx m st in
+  (upd_lease (src_val cx (dm_cid_src m)) (fun l => l_with l (l_xid l) (l_name l) (dm_lip m)) st1, outs).
+
+(* Handler.StartHunt(addr): forceRelease(lease.ClientID, gw, lease.Addr.MAC, lease.Addr.IP, nil); xid is random *)
+Definition hunt_step (cx : ctx) (ip : bytes) (st : state) : list string :=
+  match find (fun l => beqb (l_ip l) ip) (st_leases st) with
+  | Some l => (* sendDeclineReleasePacket is called with nil options: the release carries no client id *)
+              [show_decl cx "7" (Owned []) (retain RP_decline_mac cx (Held (l_mac l))) (Owned []) ip]
+  | None => []
+  end.
+
+(* ---------------------------------------------------------------- *)
+(* handlers/icmp_spoofer: router advertisement *)
+
+Definition mask_byte (bits : nat) (b : byte) : byte :=
+  match bits with
+  | 0%nat => 0 | 1%nat => N.land b 128 | 2%nat => N.land b 192 | 3%nat => N.land b 224 | 4%nat => N.land b 240
+  | 5%nat => N.land b 248 | 6%nat => N.land b 252 | 7%nat => N.land b 254 | _ => b
+  end.
+Fixpoint mask_prefix (plen : nat) (l : bytes) : bytes :=
+  match l with
+  | [] => []
+  | b :: r => mask_byte plen b :: mask_prefix (plen - 8) r
+  end.
+
+Record ramsg := {
+  ra_slla : option nat;               (* offset of the 6 MAC bytes of the source link-layer address option *)
+  ra_prefixes : list (nat * nat);     (* prefix length, offset of the 16 prefix bytes *)
+  ra_rdnss : list nat;                (* offsets of the 16-byte server addresses *)
+  ra_dnssl : list (list loc);         (* domain names: label locators *)
+  ra_route : option (nat * nat)       (* prefix length, offset of the prefix bytes *)
+}.
+
+Definition ra_xmac (m : ramsg) : src :=
+  match ra_slla m with Some off => FrameSl off 6 | None => FrameSl 6 6 end.
+
+(* the Router record after this advertisement; an existing router keeps its Addr *)
+Definition ra_mk (cx : ctx) (m : ramsg) (old : option router) : router :=
+  {| r_key := sub (cx_frame cx) 22 16;
+     r_ip := match old with Some r => r_ip r | None => retain RP_router_key cx (FrameSl 22 16) end;
+     r_mac := match old with Some r => r_mac r | None => retain RP_router_mac cx (ra_xmac m) end;
+     r_slla := match ra_slla m with Some off => retain RP_ndp_lla cx (FrameSl off 6) | None => Owned [] end;
+     r_prefixes := map (fun p => retain RP_ndp_prefix cx (Fresh (mask_prefix (fst p) (sub (cx_frame cx) (snd p) 16)))) (ra_prefixes m);
+     r_rdnss := map (fun off => retain RP_ndp_rdnss cx (FrameSl off 16)) (ra_rdnss m);
+     r_dnssl := map (fun ls => retain RP_ndp_dnssl cx (Fresh (join_labels cx ls))) (ra_dnssl m);
+     r_route := match ra_route m with
+                | Some (pl, off) =>
+                    (* as repaired by commit ade5692: the first ceil(pl/8) bytes copied into a fresh
+                       16-byte address, then masked to pl bits *)
+                    let raw := sub (cx_frame cx) off (Nat.div (pl + 7) 8) in
+                    retain RP_ndp_route cx (Fresh (mask_prefix pl (raw ++ repeat 0 (16 - List.length raw))))
+                | None => Owned [] end |}.
+
+Definition ra_step (cx : ctx) (m : ramsg) (fhost : option bytes) (st : state) : state :=
+  match fhost with
+  | None => st      (* "ra host cannot be nil" *)
+  | Some _ =>
+      let key := sub (cx_frame cx) 22 16 in
+      match find (fun r => beqb (r_key r) key) (st_routers st) with
+      | Some r => set_routers st (map (fun r' => if beqb (r_key r') key then ra_mk cx m (Some r') else r') (st_routers st))
+      | None => set_routers st (st_routers st ++ [ra_mk cx m None])
+      end
+  end.
+
+(* ---------------------------------------------------------------- *)
+(* handlers/dns_naming *)
+
+Inductive dnsrr : Type :=
+| RR_A (name : list loc) (off : nat)
+| RR_AAAA (name : list loc) (off : nat)
+| RR_CNAME (name : list loc) (cname : list loc).
+
+Record dnsmsg := { dq_name : list loc; dq_rrs : list dnsrr }.
+
+Definition add_rec (r : dnsrec) (l : list dnsrec) : list dnsrec * bool :=
+  if existsb (fun x => beqb (dr_key x) (dr_key r)) l then (l, false) else (l ++ [r], true).
+
+(* DNSEntry.decodeRRs *)
+Definition dns_rr (cx : ctx) (acc : dnsent * bool) (rr : dnsrr) : dnsent * bool :=
+  let e := fst acc in
+  match rr with
+  | RR_A name off =>
+      let '(l, u) := add_rec {| dr_key := sub (cx_frame cx) off 4; dr_name := retain RP_dns_rr_name cx (Fresh (join_labels cx name));
+                                dr_val := retain RP_dns_ip cx (FrameSl off 4) |} (d_a e) in
+      ({| d_key := d_key e; d_name := d_name e; d_a := l; d_aaaa := d_aaaa e; d_cname := d_cname e |}, snd acc || u)
+  | RR_AAAA name off =>
+      let '(l, u) := add_rec {| dr_key := sub (cx_frame cx) off 16; dr_name := retain RP_dns_rr_name cx (Fresh (join_labels cx name));
+                                dr_val := retain RP_dns_ip cx (FrameSl off 16) |} (d_aaaa e) in
+      ({| d_key := d_key e; d_name := d_name e; d_a := d_a e; d_aaaa := l; d_cname := d_cname e |}, snd acc || u)
+  | RR_CNAME name cname =>
+      (* layer_dns.go case 5 (as repaired by commit 2518490): owner := string(name) is taken before the
+         target is decoded into the same scratch buffer *)
+      let n0 := join_labels cx name in
+      let '(l, u) := add_rec {| dr_key := n0; dr_name := retain RP_dns_rr_name cx (Fresh n0);
+                                dr_val := retain RP_dns_cname cx (Fresh (join_labels cx cname)) |} (d_cname e) in
+      ({| d_key := d_key e; d_name := d_name e; d_a := d_a e; d_aaaa := d_aaaa e; d_cname := l |}, snd acc || u)
+  end.
+
+(* DNSHandler.ProcessDNS *)
+Definition dns_step (cx : ctx) (m : dnsmsg) (st : state) : state :=
+  let key := join_labels cx (dq_name m) in
+  let e0 := match find (fun e => beqb (d_key e) key) (st_dns st) with
+            | Some e => e
+            | None => {| d_key := key; d_name := retain RP_dns_name cx (Fresh key); d_a := []; d_aaaa := []; d_cname := [] |}
+            end in
+  let '(e1, updated) := fold_left (dns_rr cx) (dq_rrs m) (e0, false) in
+  if updated then set_dns st (remove_first (fun e => beqb (d_key e) key) (st_dns st) ++ [e1]) else st.
+
+(* mDNS / LLMNR (ProcessMDNS) + the application glue that applies the returned entries to the host table *)
+Record mdnsmsg := {
+  mq_resp : bool;                      (* header QR bit *)
+  mq_id : nat;                         (* offset of the 2-byte message id *)
+  mq_qnames : list (list loc);         (* query: question names *)
+  mq_a : list (list loc * nat * nat);  (* response: owner name, offset and length (4/16) of the address *)
+  mq_model : option loc                (* response: value of the model key of a TXT record with more than 2 strings *)
+}.
+
+Definition dot_local : bytes := [46;108;111;99;97;108;46].                 (* ".local." *)
+Definition tcp_local : bytes := [95;116;99;112;46;108;111;99;97;108;46].   (* "_tcp.local." *)
+Definition udp_local : bytes := [95;117;100;112;46;108;111;99;97;108;46].   (* "_udp.local." *)
+(* dnsmessage.Name.String(): labels joined by '.', with the trailing root dot *)
+Definition fqdn (cx : ctx) (ls : list loc) : bytes := join_labels cx ls ++ [46].
+
+(* query: the last question whose name ends in .local. (and is not a service) names the sender *)
+Definition mdns_qname (cx : ctx) (m : mdnsmsg) : bytes :=
+  fold_left (fun acc q => let n := fqdn cx q in
+               if negb (ends_with tcp_local n) && negb (ends_with udp_local n) && ends_with dot_local n
+               then trim_suffix dot_local n else acc) (mq_qnames m) [].
+Definition mdns_model (cx : ctx) (m : mdnsmsg) : rv :=
+  match mq_model m with Some l => retain RP_mdns_model cx (FrameSl (fst l) (snd l)) | None => Owned [] end.
+(* one A/AAAA answer: the address (host key), the IPNameEntry name, the copied source MAC *)
+Definition mdns_ent (cx : ctx) (model : rv) (a : list loc * nat * nat) : bytes * nameent * rv :=
+  (sub (cx_frame cx) (snd (fst a)) (snd a),
+   {| n_name := retain RP_mdns_name cx (Fresh (trim_suffix dot_local (fqdn cx (fst (fst a)))));
+      n_model := model; n_manuf := Owned []; n_os := Owned [] |},
+   retain RP_mdns_mac cx (FrameSl 6 6)).
+Definition mdns_ckey (cx : ctx) (m : mdnsmsg) : bytes := sub (cx_frame cx) 6 6 ++ sub (cx_frame cx) (mq_id m) 2.
+
+Definition mdns_step (cx : ctx) (slot : nat) (m : mdnsmsg) (fhost : option bytes) (st : state) : state :=
+  if negb (mq_resp m) then
+    let nm := mdns_qname cx m in
+    if is_nil nm then st else
+    match fhost with
+    | Some key => update_name cx slot key {| n_name := retain RP_mdns_name cx (Fresh nm); n_model := Owned [];
+                                            n_manuf := Owned []; n_os := Owned [] |} st
+    | None => st
+    end
+  else
+    let ckey := mdns_ckey cx m in
+    if existsb (fun c => beqb (mc_kval c) ckey) (st_mcache st) then st else
+    let ents := map (mdns_ent cx (mdns_model cx m)) (mq_a m) in
+    let st1 := set_mcache st (st_mcache st ++ [{| mc_key := retain RP_mdns_cache_key cx (Fresh ckey); mc_kval := ckey;
+                                                  mc_ents := map (fun x => (n_name (snd (fst x)), snd x, n_model (snd (fst x)))) ents |}]) in
+    (* glue: every returned entry updates the host that owns the address *)
+    fold_left (fun s x => update_name cx slot (fst (fst x)) (snd (fst x)) s) ents st1.
+
+(* NBNS node status response: first name of the array, right-trimmed (locator) *)
+Definition nbns_step (cx : ctx) (l : option loc) (fhost : option bytes) (st : state) : state :=
+  match l, fhost with
+  | Some l, Some key =>
+      if is_nil (lval cx l) then st else
+      update_name cx NM_NBNS key {| n_name := retain RP_nbns_name cx (FrameSl (fst l) (snd l)); n_model := Owned [];
+                                    n_manuf := Owned []; n_os := Owned [] |} st
+  | _, _ => st
+  end.
+
+(* SSDP M-SEARCH: model / manufacturer / OS are constants selected by the user agent (oracle) *)
+Definition ssdp_step (cx : ctx) (model manuf os : bytes) (fhost : option bytes) (st : state) : state :=
+  match fhost with
+  | Some key => update_name cx NM_SSDP key {| n_name := Owned []; n_model := Owned model; n_manuf := Owned manuf; n_os := Owned os |} st
+  | None => st
+  end.
 
 (* ---------------------------------------------------------------- *)
 (* Observation: what a caller can see of the retained state *)
-
-Fixpoint insert_by {A} (le : A -> A -> bool) (x : A) (l : list A) : list A :=
-  match l with
-  | [] => [x]
-  | y :: r => if le x y then x :: l else y :: insert_by le x r
-  end.
-Definition sort_by {A} (le : A -> A -> bool) (l : list A) : list A := fold_right (insert_by le) [] l.
-
 Open Scope string_scope.
 
-Definition show_host (s : store) (h : host) : string :=
-  hex_of_bytes (deref s (h_ip h)) ++ "=" ++ hex_of_bytes (deref s (h_mac h)).
-Definition show_mac (s : store) (e : macentry) : string :=
-  hex_of_bytes (deref s (me_mac e)) ++ "[" ++ join "+" (map hex_of_bytes (me_hosts e)) ++ "]".
+Definition show_host (cx : ctx) (h : host) : string :=
+  hx (rd cx (h_ip h)) ++ "=" ++ hx (rd cx (h_mac h)) ++ ":" ++ show_bool (h_online h) ++ ":" ++ show_names cx (h_names h).
+Definition show_mac (cx : ctx) (e : macentry) : string :=
+  hx (rd cx (me_mac e)) ++ "[" ++ join "+" (map hx (me_hosts e)) ++ "]" ++ show_bool (me_online e) ++ ":" ++ hx (me_offer e)
+  ++ ":" ++ show_names cx (me_names e).
+Definition show_lease (cx : ctx) (l : lease) : string :=
+  hx (rd cx (l_key l)) ++ "=" ++ hx (rd cx (l_cid l)) ++ "/" ++ hx (rd cx (l_mac l)) ++ "/" ++ hx (rd cx (l_xid l)) ++ "/" ++ hx (rd cx (l_name l)).
+Definition show_rvs (cx : ctx) (l : list rv) : string := join "+" (map (fun v => hx (rd cx v)) l).
+Definition show_router (cx : ctx) (r : router) : string :=
+  hx (rd cx (r_ip r)) ++ "=" ++ hx (rd cx (r_mac r)) ++ "/" ++ hx (rd cx (r_slla r)) ++ "/" ++ show_rvs cx (r_prefixes r)
+  ++ "/" ++ show_rvs cx (r_rdnss r) ++ "/" ++ show_rvs cx (r_dnssl r) ++ "/" ++ hx (rd cx (r_route r)).
+Definition show_rec (cx : ctx) (r : dnsrec) : string := hx (rd cx (dr_val r)) ++ "=" ++ hx (rd cx (dr_name r)).
+Definition rec_sorted (l : list dnsrec) : list dnsrec := sort_by (fun a b => bleb (dr_key a) (dr_key b)) l.
+Definition show_dns (cx : ctx) (e : dnsent) : string :=
+  hx (rd cx (d_name e)) ++ "{" ++ join "+" (map (show_rec cx) (rec_sorted (d_a e))) ++ "/"
+  ++ join "+" (map (show_rec cx) (rec_sorted (d_aaaa e))) ++ "/" ++ join "+" (map (show_rec cx) (rec_sorted (d_cname e))) ++ "}".
 
 Definition dump (s : store) (st : state) : string :=
-  "H:" ++ join "," (map (show_host s) (sort_by (fun a b => bleb (h_key a) (h_key b)) (st_hosts st)))
-  ++ ";M:" ++ join "," (map (show_mac s) (st_macs st)).
+  let cx := nocx s in
+  "H:" ++ join "," (map (show_host cx) (sort_by (fun a b => bleb (h_key a) (h_key b)) (st_hosts st)))
+  ++ ";M:" ++ join "," (map (show_mac cx) (st_macs st))
+  ++ ";L:" ++ join "," (map (show_lease cx) (sort_by (fun a b => bleb (l_kval a) (l_kval b)) (st_leases st)))
+  ++ ";R:" ++ join "," (map (show_router cx) (sort_by (fun a b => bleb (r_key a) (r_key b)) (st_routers st)))
+  ++ ";D:" ++ join "," (map (show_dns cx) (sort_by (fun a b => bleb (d_key a) (d_key b)) (st_dns st))).
+
+(* probe sent by purge for a host that is going offline: Ethernet destination and target address *)
+Definition show_probe (cx : ctx) (h : host) : string :=
+  let key := h_key h in
+  if Nat.eqb (List.length key) 4 then "P(arp," ++ hx (rd cx (h_ip h)) ++ ")"   (* ARP who-has *)
+  else
+    let dst := if is_lla key then [51;51;255; nth 13 key 0; nth 14 key 0; nth 15 key 0]  (* NS to the solicited-node address *)
+               else rd cx (h_mac h) in                                                     (* echo request to Host.Addr *)
+    "P(" ++ hx dst ++ "," ++ hx (rd cx (h_ip h)) ++ ")".
+
+Definition items (l : list string) : string := match l with [] => "-" | _ => join "" l end.
+Close Scope string_scope.
 
 (* ---------------------------------------------------------------- *)
 (* Library-level operations and environment-level histories *)
 
 Inductive lop : Type :=
 | LPurge (keys : list bytes)   (* Session.purge deleting these (offline, expired) hosts *)
+| LOffline (key : bytes)       (* Session.purge finding this one host silent: probe + offline notification *)
+| LHunt (ip : bytes)           (* dhcp4 Handler.StartHunt *)
 | LDump.                       (* caller inspects the tables *)
 
 (* one library call; [s] is the store at the time of the call *)
 Definition lstep (c : cfg) (s : store) (o : lop) (st : state) : state * string :=
+  let cx := nocx s in
   match o with
-  | LPurge keys => (fold_left (fun st' k => delete_host s k st') keys st, "-")
+  | LPurge keys => (fold_left (fun st' k => delete_host cx k st') keys st, items [])
+  | LOffline key =>
+      match find_host key (st_hosts st) with
+      | Some h => if h_online h
+                  then let '(st1, outs) := make_offline cx key st in (st1, items (outs ++ [show_probe cx h]))
+                  else (st, items [])
+      | None => (st, items [])
+      end
+  | LHunt ip => (st, items (hunt_step cx ip st))
   | LDump => (st, dump s st)
   end.
 
-(* receiving a frame in buffer [buf]: Parse, then the handlers, then Notify *)
-Definition rstep (c : cfg) (s : store) (buf : nat) (frame : bytes) (st : state) : state * string :=
-  (parse_hosts c s buf frame st, "-").
+(* what a received frame is handed to after Parse *)
+Inductive pkind : Type :=
+| KPlain
+| KDhcp (m : dhcpmsg)
+| KRa (m : ramsg)
+| KDns (m : dnsmsg)
+| KMdns (m : mdnsmsg)
+| KLlmnr (m : mdnsmsg)
+| KNbns (l : option loc)
+| KSsdp (model manuf os : bytes).
+
+(* receiving a frame in buffer [buf]: Parse, then the handler, then Notify *)
+Definition rstep (c : cfg) (s : store) (buf : nat) (frame : bytes) (k : pkind) (st : state) : state * string :=
+  let cx := {| cx_s := s; cx_buf := buf; cx_frame := frame |} in
+  let '(st1, fhost, trans) := parse_hosts c cx st in
+  let '(st2, outs) :=
+    match k with
+    | KPlain => (st1, [])
+    | KDhcp m => dhcp_step cx m st1
+    | KRa m => (ra_step cx m fhost st1, [])
+    | KDns m => (dns_step cx m st1, [])
+    | KMdns m => (mdns_step cx NM_MDNS m fhost st1, [])
+    | KLlmnr m => (mdns_step cx NM_LLMNR m fhost st1, [])
+    | KNbns l => (nbns_step cx l fhost st1, [])
+    | KSsdp a b o => (ssdp_step cx a b o fhost st1, [])
+    end in
+  (* Session.Notify *)
+  let '(st3, nouts) :=
+    match fhost with
+    | Some key => notify_host cx key trans st2
+    | None =>
+        match k with
+        | KDhcp _ =>
+            match find_mac cx (sub frame 6 6) (st_macs st2) with
+            | Some e => if is_nil (me_offer e) then (st2, []) else notify_host cx (me_offer e) true st2
+            | None => (st2, [])
+            end
+        | _ => (st2, [])
+        end
+    end in
+  (st3, items (nouts ++ outs)).
 
 Inductive eop : Type :=
-| ERecv (buf : nat) (frame : bytes)   (* the caller reads a frame into buffer [buf] and hands it to the library *)
-| EScribble (buf : nat) (c : bufc)    (* the caller overwrites / reuses buffer [buf] between two calls *)
+| ERecv (buf : nat) (frame : bytes) (k : pkind)   (* the caller reads a frame into buffer [buf] and hands it to the library *)
+| EScribble (buf : nat) (c : bufc)                (* the caller overwrites / reuses buffer [buf] between two calls *)
 | ELib (o : lop).
 
 Record world := { w_store : store; w_state : state; w_out : list string }.
 
 Definition estep (c : cfg) (w : world) (e : eop) : world :=
   match e with
-  | ERecv buf frame =>
+  | ERecv buf frame k =>
       let s := sset (w_store w) buf (bwrite frame (sget (w_store w) buf)) in
-      let '(st, o) := rstep c s buf frame (w_state w) in
-      {| w_store := s; w_state := st; w_out := (w_out w ++ [o])%list |}
+      let '(st, o) := rstep c s buf frame k (w_state w) in
+      {| w_store := s; w_state := st; w_out := w_out w ++ [o] |}
   | EScribble buf bc =>
       {| w_store := sset (w_store w) buf bc; w_state := w_state w; w_out := w_out w |}
   | ELib o =>
       let '(st, r) := lstep c (w_store w) o (w_state w) in
-      {| w_store := w_store w; w_state := st; w_out := (w_out w ++ [r])%list |}
+      {| w_store := w_store w; w_state := st; w_out := w_out w ++ [r] |}
   end.
 
 Definition init_world (c : cfg) : world := {| w_store := []; w_state := init_state c; w_out := [] |}.
@@ -328,16 +1015,16 @@ Definition erun (c : cfg) (h : list eop) : world := fold_left (estep c) h (init_
 
 (* what the caller observes of a history: every per-call output, then a final dump *)
 Definition transcript (c : cfg) (h : list eop) : list string :=
-  let w := erun c h in (w_out w ++ [dump (w_store w) (w_state w)])%list.
+  let w := erun c h in w_out w ++ [dump (w_store w) (w_state w)].
 
 (* the packet-level content of a history: buffers and scribbles forgotten *)
 Inductive pop : Type :=
-| PRecv (frame : bytes)
+| PRecv (frame : bytes) (k : pkind)
 | PLib (o : lop).
 
 Definition proj1 (e : eop) : list pop :=
   match e with
-  | ERecv _ frame => [PRecv frame]
+  | ERecv _ frame k => [PRecv frame k]
   | EScribble _ _ => []
   | ELib o => [PLib o]
   end.
@@ -347,13 +1034,13 @@ Definition proj (h : list eop) : list pop := flat_map proj1 h.
 Fixpoint shared_run (scr : nat -> bufc) (i : nat) (p : list pop) : list eop :=
   match p with
   | [] => []
-  | PRecv f :: r => ERecv 0 f :: EScribble 0 (scr i) :: shared_run scr (S i) r
+  | PRecv f k :: r => ERecv 0 f k :: EScribble 0 (scr i) :: shared_run scr (S i) r
   | PLib o :: r => ELib o :: shared_run scr i r
   end.
 Fixpoint fresh_run (next : nat) (p : list pop) : list eop :=
   match p with
   | [] => []
-  | PRecv f :: r => ERecv next f :: fresh_run (S next) r
+  | PRecv f k :: r => ERecv next f k :: fresh_run (S next) r
   | PLib o :: r => ELib o :: fresh_run next r
   end.
 
@@ -361,6 +1048,18 @@ Fixpoint fresh_run (next : nat) (p : list pop) : list eop :=
 (* NoRef: no retained field is a sub-slice of a receive buffer *)
 
 Definition owned (v : rv) : bool := match v with Owned _ => true | Ref _ _ _ => false end.
-Definition host_ok (h : host) : bool := owned (h_ip h) && owned (h_mac h).
-Definition mac_ok (e : macentry) : bool := owned (me_mac e).
-Definition no_ref (st : state) : bool := forallb host_ok (st_hosts st) && forallb mac_ok (st_macs st).
+Definition nm_ok (n : nameent) : bool := owned (n_name n) && owned (n_model n) && owned (n_manuf n) && owned (n_os n).
+Definition host_ok (h : host) : bool := owned (h_ip h) && owned (h_mac h) && forallb nm_ok (h_names h).
+Definition mac_ok (e : macentry) : bool := owned (me_mac e) && forallb nm_ok (me_names e).
+Definition lease_ok (l : lease) : bool := owned (l_key l) && owned (l_cid l) && owned (l_mac l) && owned (l_xid l) && owned (l_name l).
+Definition router_ok (r : router) : bool :=
+  owned (r_ip r) && owned (r_mac r) && owned (r_slla r) && forallb owned (r_prefixes r) && forallb owned (r_rdnss r)
+  && forallb owned (r_dnssl r) && owned (r_route r).
+Definition rec_ok (r : dnsrec) : bool := owned (dr_name r) && owned (dr_val r).
+Definition dns_ok (e : dnsent) : bool :=
+  owned (d_name e) && forallb rec_ok (d_a e) && forallb rec_ok (d_aaaa e) && forallb rec_ok (d_cname e).
+Definition mcache_ok (c : mcache) : bool :=
+  owned (mc_key c) && forallb (fun x => owned (fst (fst x)) && owned (snd (fst x)) && owned (snd x)) (mc_ents c).
+Definition no_ref (st : state) : bool :=
+  forallb host_ok (st_hosts st) && forallb mac_ok (st_macs st) && forallb lease_ok (st_leases st)
+  && forallb router_ok (st_routers st) && forallb dns_ok (st_dns st) && forallb mcache_ok (st_mcache st).
